@@ -673,6 +673,36 @@ def ts_case(rng, directed, nv, L, adds, src, i):
             "fam": ("str", "int", "tuple")[i % 3], "i": i}
 
 
+# ----------------------------------------------------------------------------- translator tie
+def translator_check():
+    """regenerate .cache/gen/C14Gen.lean from the current source and re-check it with Lean.
+    returns dict(status=checked|untranslatable|failed, detail=…)"""
+    import re
+    import subprocess
+    from translate import codecs
+    try:
+        txt = codecs.generate(C.REPO)
+    except codecs.Untranslatable as e:
+        return {"status": "untranslatable", "detail": str(e)}
+    except Exception as e:  # unreadable source etc.
+        return {"status": "untranslatable", "detail": "%s: %s" % (type(e).__name__, e)}
+    d = os.path.join(C.VERIF, ".cache", "gen")
+    os.makedirs(d, exist_ok=True)
+    path = os.path.join(d, "C14Gen_%d.lean" % os.getpid())
+    with open(path, "w") as f:
+        f.write(txt)
+    with open(os.path.join(d, "C14Gen.lean"), "w") as f:
+        f.write(txt)
+    r = subprocess.run(["lake", "env", "lean", path], cwd=os.path.join(C.VERIF, "lean"), capture_output=True, text=True)
+    os.unlink(path)
+    out = (r.stdout + r.stderr).strip()
+    n = len(re.findall(r"^theorem ", txt, flags=re.M))
+    bad = re.search(r"sorry|admit|native_decide|axiom", txt)
+    if r.returncode == 0 and "error" not in out and not bad:
+        return {"status": "checked", "detail": "%d generated theorems re-proved by decide" % n, "theorems": n}
+    return {"status": "failed", "detail": out[-1500:]}
+
+
 # ----------------------------------------------------------------------------- run / replay
 def _mk_fails(drv):
     def fails(c):
@@ -719,6 +749,10 @@ def run(ctx):
                       "expressible domain = documented code tables written in lean/Pw/C14/Spec.lean",
                       "ts graphs are built through add_edge and are checked to be stationary before use"]
     tmp = tempfile.mkdtemp(prefix="c14_verif_")
+    import threading
+    tr = {}
+    th = threading.Thread(target=lambda: tr.update(translator_check()))
+    th.start()
     try:
         corpus = [dict(c) for c in C.load_corpus(PID)]
         cases = corpus + list(gen_graph_cases(ctx)) + list(gen_ts_cases(ctx))
@@ -785,6 +819,14 @@ def run(ctx):
                 drv.close()
     finally:
         shutil.rmtree(tmp, ignore_errors=True)
+        th.join()
+    ev.extra["translator"] = tr
+    if tr.get("status") == "failed":
+        out.proof_breaks.append("generated codec tables (.cache/gen/C14Gen.lean, translated from the current source) "
+                                "no longer agree with the committed model / round-trip tables: " + tr.get("detail", "")[-600:])
+    elif tr.get("status") == "untranslatable":
+        ev.assumptions.append("translator: source outside the fragment (%s); tie to the code rests on the hand model + "
+                              "correspondence for this run" % tr.get("detail"))
 
 
 def replay(ctx, payload):
